@@ -323,3 +323,73 @@ func Harness_C17_APICallDuringDisconnect() {
 	}
 	vCover("api-during-disconnect-done")
 }
+
+// the router goes on reading but does not answer (a foreign router, a GOODBYE
+// reply dropped at a full queue, a peer that vanished without a reset): Close
+// and every pending request return after their bounded waits
+func Harness_C17_RouterStopsAnswering() {
+	cl, rt := vNewClient(300 * time.Millisecond)
+	vGoroutineMark()
+	rt.auto = false
+	rt.swallowGoodbye = true
+	pending := vChoice("pending-request", 3)
+	pdone := make(chan struct{})
+	var perr error
+	switch pending {
+	case 1:
+		go func() { defer close(pdone); perr = cl.Subscribe("t", func(*wamp.Event) {}, nil) }()
+	case 2:
+		go func() {
+			defer close(pdone)
+			_, perr = cl.Call(context.Background(), "p", nil, nil, nil, nil)
+		}()
+	default:
+		close(pdone)
+	}
+	vQuiesce()
+	closeFirst := vBool("close-while-the-request-is-pending")
+	if !closeFirst {
+		vAdvance(int64(400 * time.Millisecond))
+		vQuiesce()
+		if pending == 1 {
+			select {
+			case <-pdone:
+				vAssert("unanswered-request-returns-an-error", perr != nil)
+			default:
+				vAssert("unanswered-request-returns-after-the-response-timeout", false)
+				return
+			}
+		}
+	}
+	done := make(chan struct{})
+	go func() {
+		defer close(done)
+		cl.Close()
+	}()
+	vQuiesce()
+	vAdvance(int64(2 * time.Second))
+	vQuiesce()
+	select {
+	case <-done:
+	default:
+		vAssert("close-returns-when-the-router-does-not-answer-goodbye", false)
+		return
+	}
+	select {
+	case <-pdone:
+		if pending != 0 {
+			vAssert("pending-request-ended-with-an-error", perr != nil)
+		}
+	default:
+		vAssert("pending-request-returns-when-the-client-is-closed", false)
+		return
+	}
+	select {
+	case <-cl.Done():
+	default:
+		vAssert("done-signalled-after-close", false)
+	}
+	rt.peer.Close()
+	vAssert("no-goroutine-or-handler-left", vGoroutinesSinceMark() <= 0)
+	vCover("router-stopped-answering-checked")
+}
